@@ -297,3 +297,44 @@ def hm2(proj, rep, modules):
                     n -= 1
     rep.count('HM2.similarity_transforms', n)
     return n
+
+
+# ------------------------------------------------------------------------------------------------ HM3
+RULE_HM3 = ('HM3: a full contraction of an array with itself, `einsum(X, L, X, L, [])` with identical leg lists, is sum_ij X_ij^2: for a complex X this is neither the '
+            'squared Frobenius norm (needs conj on one factor: vdot) nor Tr(X X) (needs transposed legs). If X is built with a conjugate (a density / Gram '
+            'matrix of complex data) the purity computed this way is complex-valued / too large by the imaginary coherences.')
+
+
+def hm3(proj, rep, modules):
+    rep.rule('HM3', RULE_HM3)
+    n = 0
+    for mq in modules:
+        m = proj.mod(mq)
+        rep.touch(m)
+        for fi in [f for f in proj.funcs.values() if f.module is m]:
+            for c in ast.walk(fi.node):
+                if not (isinstance(c, ast.Call) and ast.unparse(c.func).split('.')[-1] in ('einsum', 'contract') and len(c.args) >= 5):
+                    continue
+                a0, l0, a1, l1, out = c.args[:5]
+                if not (isinstance(l0, ast.List) and isinstance(l1, ast.List) and isinstance(out, ast.List) and not out.elts):
+                    continue
+                if ast.unparse(a0) != ast.unparse(a1) or not isinstance(a0, ast.Name):
+                    if isinstance(a0, ast.Name) and ast.unparse(a1).replace(' ', '') in (f'{a0.id}.conj()', f'np.conj({a0.id})', f'{a0.id}.conjugate()') \
+                            and ast.unparse(l0) == ast.unparse(l1):
+                        n += 1
+                        rep.ok('HM3', fi.qual, f'`{ast.unparse(c)[:60]}`: squared norm with the conjugate', m, c)
+                    continue
+                n += 1
+                L0, L1 = [ast.unparse(e) for e in l0.elts], [ast.unparse(e) for e in l1.elts]
+                if L0 == L1:
+                    d = [s.value for s in ast.walk(fi.node) if isinstance(s, ast.Assign) and isinstance(s.targets[0], ast.Name) and s.targets[0].id == a0.id]
+                    cx = any('conj' in ast.unparse(v) or '1j' in ast.unparse(v) for v in d)
+                    if cx:
+                        rep.violation('HM3', fi.qual, f'`{ast.unparse(c)[:90]}` sums the SQUARES of the entries of `{a0.id}`, which is built from complex data (`conj` in its '
+                                      f'definition): that is neither ||X||_F^2 (conjugate missing) nor Tr(X X) (legs not transposed)', m, c)
+                    else:
+                        rep.ok('HM3', fi.qual, f'`{ast.unparse(c)[:60]}`: real array', m, c)
+                elif L0 == list(reversed(L1)) or sorted(L0) == sorted(L1):
+                    rep.ok('HM3', fi.qual, f'`{ast.unparse(c)[:60]}`: Tr(X X) with transposed legs', m, c)
+    rep.count('HM3.self_contractions', n)
+    return n
